@@ -135,6 +135,17 @@ class Verifier(Engine):
                 raise Unsupported("class attribute %s.%s" % (cname, attr))
             if k == "regex":
                 return Py("bound", (base, attr))
+            if k == "super":
+                selfv, cur = p
+                mro = self.class_mro(cur)[1:]
+                for c in mro:
+                    cd = self.reg.classes.get(c)
+                    if cd is None or not cd.file:
+                        continue
+                    mem = self.repo.class_members(cd.file, cd.qual)
+                    if attr in mem:
+                        return Py("superbound", (selfv, cd.file, "%s.%s" % (cd.qual, attr)))
+                raise Unsupported("super().%s not found" % attr)
             raise Unsupported("attribute %s of %r" % (attr, base))
         t_ = base.ty
         if t_.kind == "opt":
@@ -157,7 +168,7 @@ class Verifier(Engine):
                 if "property" in decos:
                     return self.call_function(rel, "%s.%s" % (c, attr), base, [], {}, as_property=True)
                 return Py("bound", (base, attr))
-            if self.reg.contract_for("ext", "%s.%s" % (cname, attr)) is not None:
+            if self.reg.contract_for("ext", "%s.%s" % (cname, attr)) is not None or cname == "ReMatch":
                 return Py("bound", (base, attr))
             raise Unsupported("attribute %s.%s is neither a declared field nor a member" % (cname, attr))
         if t_.kind == "val":
@@ -301,7 +312,8 @@ class Verifier(Engine):
         if a.ty.kind == "str" and b.ty.kind == "str" and isinstance(op, ast.Add):
             return V(T.STR, z3.Concat(a.t, b.t))
         if a.ty.kind == "val" and isinstance(op, ast.Div):
-            return self.call_ext("%s.__truediv__" % a.ty.args[0], a, [b], {})
+            suffix = "" if b.ty.kind == "str" else "_" + (b.ty.args[0] if b.ty.kind == "val" else b.ty.kind)
+            return self.call_ext("%s.__truediv__%s" % (a.ty.args[0], suffix), a, [b], {})
         if a.ty.kind == "float" or b.ty.kind == "float":
             return V(T.FLOAT, self.fresh("flt", sort_of(T.FLOAT)))
         a, b = self.coerce(a, T.INT), self.coerce(b, T.INT)
@@ -451,11 +463,14 @@ class Verifier(Engine):
         if k == "ref":
             cname = v.ty.args[0]
             mem = self.member(cname, "__str__") or self.member(cname, "__repr__")
-            if mem is not None and self.reg.contract_for(mem[0], "%s.%s" % (mem[1], mem[2].name)) is not None:
-                return self.call_function(mem[0], "%s.%s" % (mem[1], mem[2].name), v, [], {})
+            if mem is not None:
+                try:
+                    return self.coerce(self.call_function(mem[0], "%s.%s" % (mem[1], mem[2].name), v, [], {}), T.STR)
+                except Unsupported:
+                    pass
         if k == "opt":
-            f = z3.Function("pystr_" + self.tag(sort_of(v.ty)), sort_of(v.ty), z3.StringSort())
-            return V(T.STR, f(v.t))
+            inner = self.to_str(V(v.ty.args[0], T.opt_val(v.ty, v.t)))
+            return V(T.STR, z3.If(T.opt_is_none(v.ty, v.t), z3.StringVal("None"), inner.t))
         f = z3.Function("pystr_" + self.tag(sort_of(v.ty)), sort_of(v.ty), z3.StringSort())
         return V(T.STR, f(v.t))
 
@@ -515,6 +530,8 @@ class Verifier(Engine):
                 return self.construct(p, args, kwargs)
             if k == "ext":
                 return self.call_ext(p, None, args, kwargs)
+            if k == "superbound":
+                return self.call_function(p[1], p[2], p[0], args, kwargs)
             if k == "lambda":
                 return self.call_lambda(fn, args)
             if k == "closure":
@@ -559,13 +576,16 @@ class Verifier(Engine):
             self.quant_depth -= 1
         rng = z3.And(i >= 0, i < n)
         facts = self._elem_facts(el)
+        if facts:
+            # well-typed heap: every element of a container has the declared element type
+            self.assume(z3.ForAll([i], z3.Implies(rng, z3.And(*facts))))
         if universal:
-            return z3.ForAll([i], z3.Implies(z3.And(rng, *facts, *extra), b))
-        return z3.Exists([i], z3.And(rng, *facts, *extra, b))
+            return z3.ForAll([i], z3.Implies(z3.And(rng, *extra), b))
+        return z3.Exists([i], z3.And(rng, *extra, b))
 
     def _elem_facts(self, el):
         mark = len(self.st.pc)
-        self.assume_type(el)
+        self.assume_type(el, with_alloc=False)
         facts = self.st.pc[mark:]
         del self.st.pc[mark:]
         return facts
@@ -583,6 +603,11 @@ class Verifier(Engine):
     def call_builtin(self, name, args, kwargs, node):
         if name in NOOP_FUNCS:
             return NONE_V
+        if name == "super" and not args:
+            selfv = self.st.loc.get("self")
+            if not isinstance(selfv, V) or self.frame.cls is None:
+                raise Unsupported("super() outside a method")
+            return Py("super", (selfv, self.frame.cls.split(".")[-1]))
         if name == "len":
             v = args[0]
             if isinstance(v, Py) and v.kind == "ext":
@@ -821,6 +846,12 @@ class Verifier(Engine):
             return self.call_bound(V(inner, T.opt_val(obj.ty, obj.t)), name, args, kwargs, node)
         if k == "ref":
             cname = obj.ty.args[0]
+            if cname == "ReMatch" and name == "group":
+                g = args[0]
+                if not (isinstance(g, V) and z3.is_string_value(g.t)):
+                    raise Unsupported("match.group() with a non-constant group name")
+                f = z3.Function("match_group_" + g.t.as_string(), Ref, z3.StringSort())
+                return V(T.STR, f(obj.t))
             mem = self.member(cname, name)
             if mem is not None:
                 return self.call_function(mem[0], "%s.%s" % (mem[1], name), obj, args, kwargs)
@@ -897,6 +928,8 @@ class Verifier(Engine):
             trivially_pure = len(body) == 1 and isinstance(body[0], ast.Return)
             if want_inline or trivially_pure or (con is None and (as_property or short == '__init__')):
                 return self.inline_call(rel, qualname, fdef, selfv, args, kwargs, clsval)
+        if con is None:
+            con = self.reg.contract_for("ext", ".".join(qualname.split(".")[-2:]))
         if con is None:
             raise Unsupported("no contract for %s::%s (and not inlinable)" % (rel, qualname))
         return self.apply_contract(con, selfv, args, kwargs, clsval=clsval)
@@ -1004,6 +1037,8 @@ class Verifier(Engine):
         if selfv is not None:
             env["self"] = selfv
         pos = list(args)
+        if getattr(con, "varargs", False):
+            pos = [a for a in pos[:len(names)] if not (isinstance(a, tuple) and a and a[0] == "*")]
         if any(isinstance(a, tuple) and a and a[0] == "*" for a in pos):
             raise Unsupported("*args at a call to %s" % label)
         if len(pos) > len(names):
@@ -1013,6 +1048,8 @@ class Verifier(Engine):
         for k, v in kwargs.items():
             if k == "**":
                 raise Unsupported("**kwargs at a call to %s" % label)
+            if getattr(con, "varargs", False) and k not in con.params:
+                continue
             env[k] = v
         for nme in names:
             if nme not in env and nme in defaults:
@@ -1035,7 +1072,7 @@ class Verifier(Engine):
         outcomes = ["normal"] + sorted(con.raises.keys())
         k = self.choose(len(outcomes), "outcome of " + label)
         old_heap = dict(self.st.heap)
-        self.havoc(con.modifies, env, allocates=True)
+        self.havoc(con.modifies, env, allocates=bool(con.fresh_result or getattr(con, 'allocates', False)))
         saved_old = self.old_heap
         self.old_heap = old_heap
         try:
@@ -1051,6 +1088,7 @@ class Verifier(Engine):
                 env["result"] = res
                 for cl in con.ensures:
                     self.assume(self.spec(cl.expr, env))
+                self.probes.append(("%s::state after call %s at `%s` is consistent" % (self.cur_func, label, site), list(self.st.pc)))
                 return res
             ename = outcomes[k]
             exact = not ename.endswith("+")
@@ -1164,7 +1202,7 @@ class Verifier(Engine):
         """Spec-only built-ins. Returns NotImplemented if `name` is not one."""
         a = node.args
         if name == "old":
-            return self.in_heap(self.old_heap if self.old_heap is not None else self.entry_heap, a[0], self.entry_loc)
+            return self.in_heap(self.old_heap if self.old_heap is not None else self.entry_heap, a[0], None if self.old_heap is not None else self.entry_loc)
         if name == "at_loop":
             return self.in_heap(self.loop_heap, a[0], None)
         if name == "implies":
@@ -1305,7 +1343,7 @@ class Verifier(Engine):
         try:
             facts = []
             if t_.kind == "ref":
-                facts.append(z3.And(x != NONE, z3.Select(self.alloc_map(), x), self.isinstance_term(x, t_.args[0])))
+                facts.append(z3.And(x != NONE, self.isinstance_term(x, t_.args[0])))
             b = self.truth(self.ev(body))
             extra = self.st.pc[mark:]
             del self.st.pc[mark:]
